@@ -28,6 +28,9 @@ HARNESS_GLOB_DIR = "harness"
 WRAPS = [
     "pthread_create", "pthread_join", "pthread_exit", "pthread_cancel", "pthread_setcancelstate",
     "pthread_rwlock_rdlock", "pthread_rwlock_wrlock", "pthread_rwlock_unlock",
+    "pthread_mutex_lock", "pthread_mutex_unlock",
+    "pthread_cond_wait", "pthread_cond_timedwait", "pthread_cond_signal", "pthread_cond_broadcast",
+    "usleep", "nanosleep",
     "clock_gettime", "sleep", "lrtr_dbg", "free",
     "rtr_sync", "rtr_wait_for_sync",
 ]
